@@ -97,7 +97,16 @@ func WorkerMain(t *testing.T) {
 				p.Tape = o.Tape
 			}
 			rec.Plan = p
+			if o.ReplayPlan != nil {
+				rp := o.ReplayPlan
+				rp.Prop, rp.Engine, rp.Tier, rp.Seed, rp.Run = p.Prop, p.Engine, p.Tier, p.Seed, p.Run
+				if rp.SchedSeed == 0 {
+					rp.SchedSeed = p.SchedSeed
+				}
+				rec.Plan = rp
+			}
 		}
+		o.ReplayPlan = nil
 		o.Tape = nil
 		enc.Encode(rec)
 		if o.Violation != nil {
